@@ -619,6 +619,8 @@ class _Frame:
             return not self.truth(v, n)
         if isinstance(n.op, ast.Invert) and getattr(type(v), "_xeval_open", False):
             return ~v
+        if isinstance(n.op, ast.Invert) and isinstance(v, XArray) and all(isinstance(x, bool) for x in v.data):
+            return XArray(v.shape, [not x for x in v.data])
         raise self.bad("unary operator", n)
 
     def e_BinOp(self, n):
@@ -702,6 +704,10 @@ class _Frame:
     def cmp(self, op, a, b, n):
         a, b = exact(a), exact(b)
         try:
+            if isinstance(op, (ast.Eq, ast.NotEq)) and ((isinstance(a, XArray) and _is_num(b)) or (isinstance(b, XArray) and _is_num(a))):
+                arr, sc = (a, b) if isinstance(a, XArray) else (b, a)
+                want = isinstance(op, ast.Eq)
+                return XArray(arr.shape, [(x == sc) is want if isinstance(x == sc, bool) else bool(x == sc) is want for x in arr.data])
             if isinstance(op, ast.Eq):
                 return a == b
             if isinstance(op, ast.NotEq):
@@ -1184,10 +1190,18 @@ def _np_repeat(a, repeats, axis=None):
 
 def _np_cross(a, b, axis=None, **kw):
     a, b = XArray.from_nested(a), XArray.from_nested(b)
-    if a.shape != (3,) or b.shape != (3,):
-        raise XArrayError("cross supports 3-vectors only")
-    x, y = a.data, b.data
-    return XArray((3,), [x[1] * y[2] - x[2] * y[1], x[2] * y[0] - x[0] * y[2], x[0] * y[1] - x[1] * y[0]])
+    c3 = lambda x, y: [x[1] * y[2] - x[2] * y[1], x[2] * y[0] - x[0] * y[2], x[0] * y[1] - x[1] * y[0]]
+    if a.shape == (3,) and b.shape == (3,):
+        return XArray((3,), c3(a.data, b.data))
+    # rows of 3-vectors (vectors along the last axis), one operand possibly a single vector
+    if a.shape[-1:] == (3,) and b.shape[-1:] == (3,) and a.ndim <= 2 and b.ndim <= 2 and axis in (None, -1, 1):
+        n = max(a.shape[0] if a.ndim == 2 else 1, b.shape[0] if b.ndim == 2 else 1)
+        ra = lambda k: a.data[3 * k: 3 * k + 3] if a.ndim == 2 and a.shape[0] > 1 else a.data[:3]
+        rb = lambda k: b.data[3 * k: 3 * k + 3] if b.ndim == 2 and b.shape[0] > 1 else b.data[:3]
+        if (a.ndim == 2 and a.shape[0] not in (1, n)) or (b.ndim == 2 and b.shape[0] not in (1, n)):
+            raise XArrayError("cross: row counts differ")
+        return XArray((n, 3), [x for k in range(n) for x in c3(ra(k), rb(k))])
+    raise XArrayError("cross supports 3-vectors and rows of 3-vectors only")
 
 
 def _np_dot_nd(a, b):
@@ -1247,14 +1261,22 @@ def _np_trace(a, **kw):
     return tot
 
 
-def _np_linalg_norm(a, axis=None, **kw):
+def _np_linalg_norm(a, axis=None, keepdims=False, **kw):
     a = XArray.from_nested(a)
     if axis is None and a.ndim == 1:
         tot = 0
         for x in a.data:
             tot = tot + x * x
         return _np_sqrt(tot)
-    raise XArrayError("norm with axis is not modelled")
+    if a.ndim == 2 and axis in (1, -1):
+        out = []
+        for k in range(a.shape[0]):
+            tot = 0
+            for x in a.data[k * a.shape[1]:(k + 1) * a.shape[1]]:
+                tot = tot + x * x
+            out.append(_np_sqrt(tot))
+        return XArray((a.shape[0], 1) if keepdims else (a.shape[0],), out)
+    raise XArrayError("norm with this axis is not modelled")
 
 
 def _np_outer(a, b):
@@ -1352,6 +1374,7 @@ _NP_FUNCS = {
     "size": lambda a: XArray.from_nested(a).size if not _is_num(a) else 1,
     "ravel": lambda a: XArray.from_nested(a).ravel(),
     "where": lambda *a: _np_where(*a),
+    "setdiff1d": lambda *a, **k: _np_setdiff1d(*a, **k),
 }
 
 
@@ -1458,7 +1481,32 @@ def _np_swapaxes(a, i, j):
 
 
 def _np_where(*a):
-    raise XArrayError("np.where is data dependent: outside the table grammar")
+    """np.where on CONCRETE boolean masks only (index form and three-argument form)"""
+    cond = a[0]
+    if isinstance(cond, bool):
+        cond = XArray((1,), [cond])
+    if not isinstance(cond, XArray) or not all(isinstance(x, bool) for x in cond.data):
+        raise XArrayError("np.where is data dependent: outside the table grammar")
+    if len(a) == 1:
+        if cond.ndim != 1:
+            raise XArrayError("np.where(mask) of a non 1-D mask")
+        idx = [i for i, v in enumerate(cond.data) if v]
+        return (XArray((len(idx),), idx),)
+    x, y = a[1], a[2]
+    xs = XArray.from_nested(x).broadcast_to(cond.shape) if isinstance(x, (XArray, list, tuple)) else None
+    ys = XArray.from_nested(y).broadcast_to(cond.shape) if isinstance(y, (XArray, list, tuple)) else None
+    return XArray(cond.shape, [(xs.data[i] if xs is not None else exact(x)) if c else (ys.data[i] if ys is not None else exact(y)) for i, c in enumerate(cond.data)])
+
+
+def _np_setdiff1d(a, b, **kw):
+    def flat(v):
+        if isinstance(v, tuple) and len(v) == 1:
+            v = v[0]
+        return [int(x) for x in XArray.from_nested(list(v) if not isinstance(v, XArray) else v).ravel().data]
+
+    fa, fb = flat(a), set(flat(b))
+    out = sorted({x for x in fa if x not in fb})
+    return XArray((len(out),), out)
 
 
 _NP_CONSTS = {}
